@@ -11,6 +11,41 @@ NOTE = ("Trusted base: Lean 4.33 kernel (+ leanchecker re-check in the thorough 
         "string/Duration/BTreeSet/StableVec semantics, derive_builder/strum/derive_more/shorthand generated code, derived PartialEq/Ord/Hash. ")
 
 CLAIMS = {
+    "C06": {
+        "technique": "Lean 4 refinement proof (parser key-set update refines the RFC 4.3.2.4 specification, lifted to every accepted text) + exhaustive event-sequence differential run",
+        "text": ("Proof (Lean 4) on the model, full strength at the level of input TEXT: abs_step (the parser's replace-by-format / clear-on-NONE update of the "
+                 "sorted key set implements the specification step, absent KEYFORMAT = identity), rel_fold (induction over every line history), "
+                 "keys_in_effect (for every builder configuration b and every string s with parseMediaWith b s = ok p: s decomposes into classified lines "
+                 "and segment i of p reports exactly the specification's snapshot at its URI line, its map the snapshot at the EXT-X-MAP line, up to the "
+                 "IV completion of C07), no_two_keys_same_format, decryptable_abs (keys() = snapshot without the marker). Tie: every event sequence up to the "
+                 "length bound over {key in 4 formats x 2 payloads, NONE, MAP, segment}, random long sequences and generated playlists are run on the real "
+                 "library and the model (per-segment/per-map key SETS must agree) and compared with an independent Python simulation of the RFC rule."),
+        "design_ref": "DESIGN.md §7 C06",
+        "note": "Gate is on key sets per segment/map (order is C11's subject).",
+    },
+    "C07": {
+        "technique": "Lean 4 proof over the build loop (numbering, IV rule, writer strips derived IVs) + differential run with independent numbering/IV oracle",
+        "text": ("Proof (Lean 4) on the model: numbering (every string accepted by any parse entry point yields segments numbered media_sequence + index, "
+                 "all < 2^64), numbering_lines (media_sequence = value of the last EXT-X-MEDIA-SEQUENCE line wherever it stands, 0 if absent), completeIv_spec "
+                 "(a key gets the segment number as IV exactly when AES-128, no IV attribute and format absent/identity; explicit IVs verbatim), "
+                 "effective_ivs_lines (segment j's keys = keys in effect with the rule applied for number media_sequence + j), show_iv_free / stripIv_spec / "
+                 "stripIv_completeIv (the writer never prints a derived IV and announces the key as written). Tie: random key histories x media sequences "
+                 "up to the 64-bit limit placed at any line boundary on the real library and the model (numbers and effective IVs must agree), plus an "
+                 "independent Python computation of numbers/IVs and a scan of the serialised text."),
+        "design_ref": "DESIGN.md §7 C07",
+        "note": "Builder-made playlists with explicit numbers: recorded finding K7 (C20).",
+    },
+    "C08": {
+        "technique": "Lean 4 proof (continuity validator <-> well-chained; build loop = declarative resolution; n@start text round trip) + exhaustive small-scope differential run",
+        "text": ("Proof (Lean 4) on the model: validate_ranges_iff (the last_range_uri loop accepts iff every offset-less range directly follows a sub-range of "
+                 "the same URI), built_ranges / ranges_lines (for every accepted line history the reported ranges are the declarative resolution: offset-less "
+                 "= [prev.end, prev.end+len) saturating at 2^64-1, explicit = as written), not_chained_rejected, resolved_range_text + byteRange_roundtrip "
+                 "(a resolved range is written n@start and re-parses to itself), map_range_verbatim. Tie: every sequence of <= 4 (5) segments over 2 URIs x "
+                 "{none, explicit, implicit}, random boundary values, MAP ranges, on the real library and the model (uri/range/map-range per segment must "
+                 "agree) and against an independent Python spec incl. re-parse of the written text."),
+        "design_ref": "DESIGN.md §7 C08",
+        "note": "Theorem ranges_lines is stated over typed lines with byte-range values <= 2^64-1 (what ByteRange.parse guarantees).",
+    },
     "C13": {
         "technique": "Lean 4 proof (validator = Boolean closed form <-> declarative consistency) + exhaustive/random differential run with independent rule oracle",
         "text": ("Proof (Lean 4) on the model: validateVariants_iff and validateSessionData_iff show, for ALL rendition lists, variant lists and "
@@ -28,8 +63,8 @@ CLAIMS = {
         "technique": "Lean 4 proof of the ==/cmp/hash laws on the model + differential correspondence on all pairs",
         "text": ("Proof (Lean 4) on the model: kfv_laws and f32_laws state, for the three hand-written impls (KeyFormatVersions, Float, UFloat), "
                  "for ALL values: == is reflexive and true exactly on identical content, cmp = Equal iff ==, equal values feed identical bytes to the "
-                 "hasher, cmp is antisymmetric and transitive; decryptionKey_cmp_eq_iff / extXKey_cmp_eq_iff prove the derived order of the keys "
-                 "(which the library's key set relies on) is Equal only on identical keys; the generic lemmas cmpList/cmpOpt/ordThen_lawful lift the "
+                 "hasher, cmp is antisymmetric and transitive; decryptionKey_cmp_laws / extXKey_cmp_laws prove the derived order of the keys "
+                 "(which the library's key set relies on) is a lawful total order, Equal only on identical keys; the generic lemmas cmpList/cmpOpt/ordThen_lawful lift the "
                  "laws through every derived (lexicographic) impl. Tie: every pair over the carriers is run on the real library and on the model and "
                  "the outcomes of ==, cmp and hash-equality must agree; the six laws are additionally evaluated on the implementation's own answers "
                  "for all pairs and triples, including derived composites (playlists, segments, keys, variant streams, values)."),
